@@ -164,6 +164,11 @@ def check_mr(chain, st, ctx, mr, case):
         qdn = qd / max(1.0, float(np.max(np.abs(qd))))          # bounded step direction, rescaled afterwards
         sfac = max(1.0, float(np.max(np.abs(qd))))
         h = 1e-3
+        # no sample of the difference quotient may put a joint value inside the exponential's cut-off band (0, 1e-6)
+        for _try in range(6):
+            if all(np.all((np.abs(q + t * qdn) == 0) | (np.abs(q + t * qdn) > 1e-5)) for t in (h, -h, h / 2, -h / 2)):
+                break
+            h *= 1.37
 
         def Mat(t):
             return np.asarray(mr.MassMatrix(q + t * qdn, Ml, Gl, S), dtype=float)
